@@ -343,6 +343,13 @@ def C01(c):
             c.mc("UniWake", "%s_n%d_s%d" % (kind, n, maxs), uniwake(kind, n=n, maxs=maxs, prods=2, sends=2 if quick else 3), invariants=["InvCounts", "InvNoLoss"], init="Init", next_="Next",
                  required_actions=["Reserve", "WakeDecision", "Consume", "Register"] + (["Publish"] if kind == "atomic" else []), timeout=1200, workers=8)
     checks = ["InvDeliveredAtMostOnce", "InvNoLossNoInvention", "InvRejectedSetterUninvoked", "NoPanic"]
+    # channel level, implementation shaped: UniChan (RingAtomic + wake / waker registration + the executor task), exhaustively, and every one
+    # of its transitions replayed into the real movable atomic channel
+    cover.cover_unichan(c, "unichan_1p1c3", [[S(11), S(12), S(13)], [DRIVE(0, max_=3)]], checks)
+    cover.cover_unichan(c, "unichan_2p1c", [[S(11)], [S(21)], [DRIVE(0, max_=2)]], checks)
+    if not quick:
+        cover.cover_unichan(c, "unichan_1p1c_n2", [[S(11), S(12), S(13)], [DRIVE(0, max_=2)]], checks, n=2)
+        cover.cover_unichan(c, "unichan_2p1c_s2", [[S(11), S(12)], [DRIVE(0, max_=2)], [DRIVE(1, max_=2)]], checks, maxs=2)
     mr, rr = (150, 100) if quick else (3000, 2000)
     for kind in UNI_KINDS:
         scns = []
@@ -374,6 +381,17 @@ def C04(c):
     else:
         c.mc("UniWake", "atomic_s1", uniwake("atomic", n=4, maxs=1, prods=2, sends=2), invariants=["InvCounts", "InvNoLostWakeup"], init="Init", next_="Next", timeout=1200, workers=8)
     checks = ["InvNoLostWakeup"]
+    # the same at the granularity of the code: UniChan; the strict rule fails in the model exactly as the recorded finding says, and every
+    # transition of the model is replayed into the real channel (the replays that strand an event are matched against that finding)
+    if kf_open("KF-C04-racing-lost-wakeup-uni-atomic"):
+        r = c.mc("MC_UniChan", "1p1c3_strict", {"N": 4, "W": 16, "Procs": [0, 1], "Origins": [0], "OverflowChecks": True, "RelaxEmpty": True, "Prefill": False, "Mode": '"fifo"', "MaxS": 1},
+                 subst={"Script": "Script_1p1c3"}, invariants=["InvNoLostWakeup"], deadlock=False, expect="kf", timeout=1200, workers=6)
+        if r["ok"]:
+            c.notes.append("the recorded finding KF-C04-racing-lost-wakeup-uni-atomic is no longer reproduced by the UniChan model")
+    cover.cover_unichan(c, "unichan_1p1c3", [[S(11), S(12), S(13)], [DRIVE(0, max_=3)]], checks)
+    cover.cover_unichan(c, "unichan_2p1c", [[S(11)], [S(21)], [DRIVE(0, max_=2)]], checks)
+    if not quick:
+        cover.cover_unichan(c, "unichan_2p1c_s2", [[S(11), S(12)], [DRIVE(0, max_=2)], [DRIVE(1, max_=2)]], checks, maxs=2)
     mr, rr = (200, 150) if quick else (3000, 2000)
     for kind in UNI_KINDS:
         scns = []
@@ -418,6 +436,10 @@ def C07(c):
              required_actions=["CancelStep", "KeepCheck", "Register"], timeout=1200, workers=8)
     mr, rr = (200, 120) if quick else (4000, 2500)
     checks = ["InvCancelEndsStreams", "InvDeliveredAtMostOnce", "InvRunningCount", "NoPanic"]
+    # UniChan: cancel_all_streams against every step of a stream's poll, every transition replayed into the real channel
+    cover.cover_unichan(c, "unichan_cancel", [[S(11)], [op("cancel_all")], [DRIVE(0, max_=9)]], checks)
+    if not quick:
+        cover.cover_unichan(c, "unichan_cancel_s2", [[S(11)], [op("cancel_all")], [DRIVE(0, max_=9)], [DRIVE(1, max_=9)]], checks, maxs=2)
 
     def build(kind):
         out = []
@@ -495,7 +517,7 @@ def C16(c):
     quick = c.tier == "quick"
     # design level: three producers overshooting at the full boundary against one consumer (recede paths), both rings
     kf = kf_open(KF_SPURIOUS_EMPTY) is not None
-    c.mc("MC_RingAtomic", "Script_3p1c", ring_consts(procs=4, origins=[0, 7], relax=kf), subst={"Script": "Script_3p1c"}, invariants=RING_INV, required_actions=["MCCall", "EnqRecedeOk", "EnqRecedeFail"], timeout=3000, workers=10)
+    c.mc("MC_RingAtomic", "Script_3p1c", ring_consts(procs=4, origins=[7] if quick else [0, 3, 7], relax=kf), subst={"Script": "Script_3p1c"}, invariants=RING_INV, required_actions=["MCCall", "EnqRecedeOk", "EnqRecedeFail"], timeout=3000, workers=10)
     c.mc("MC_RingFullSync", "Script_2p1c", fs_consts(procs=3, origins=[0, 7]), subst={"Script": "Script_2p1c"}, invariants=["InvBounds", "InvLinearizable", "InvContents", "InvLockOwner"], required_actions=["MCCall"], timeout=3000, workers=10)
     # specification -> implementation: the recede paths at the full boundary, every transition, on the real rings
     cover.cover_ring(c, "ring_atomic_full", "atomic", [[E(11), E(12)], [E(21)], [E(31), D]], origin=7)
@@ -548,6 +570,12 @@ def C20(c):
             # suspended for a while, then resumed: the suspended event is delivered as well
             th3 = [[SA(11, 3)], [S(21), SW(22)], [DRIVE(0, max_=3)]]
             out += explore2("%s_n%ds%d_later" % (kind, n, s_), kind, n, s_, th3, c, mr, rr, seed_extra=5, pre_streams=s_)
+            # a second asynchronous send whose own setter finishes at once (or after one step) overlaps the suspended one: it completes, and
+            # its event and the plain one sent after it are delivered while the first is still suspended
+            th4 = [[SA(11, -1)], [SA(21, 1), S(22), op("pending")], [DRIVE(0, max_=2)]]
+            out += explore2("%s_n%ds%d_async2" % (kind, n, s_), kind, n, s_, th4, c, mr, rr, seed_extra=9, pre_streams=s_)
+            th5 = [[SA(11, 4), SA(12, 0)], [SA(21, 0), SA(22, 2)], [DRIVE(0, max_=4)]]
+            out += explore2("%s_n%ds%d_async4" % (kind, n, s_), kind, n, s_, th5, c, mr, rr, seed_extra=11, pre_streams=s_)
         return out
     run_uni(c, UNI_KINDS, build, checks, expect_stalls=True)
     C20_multi(c)
@@ -854,6 +882,8 @@ def C20_multi(c):
         out += explore2("%s_never" % kind, kind, n, s_, th, c, mr, rr, pre_streams=2)
         th3 = [[SA(11, 3)], [S(21), SW(22)], [DRIVE(0, max_=3)], [DRIVE(1, max_=3)]]
         out += explore2("%s_later" % kind, kind, n, s_, th3, c, mr, rr, seed_extra=5, pre_streams=2)
+        th4 = [[SA(11, -1)], [SA(21, 1), S(22)], [DRIVE(0, max_=2)], [DRIVE(1, max_=2)]]
+        out += explore2("%s_async2" % kind, kind, n, s_, th4, c, mr, rr, seed_extra=9, pre_streams=2)
         return out
     run_multi(c, MULTI_NONLOG, build, ["InvNoStall", "InvNoLostWakeup", "InvAtMostOncePerListener", "InvNoInvention", "NoPanic"], procs=4, expect_stalls=True)
 
